@@ -500,7 +500,7 @@ pub fn run(ctx: &mut Ctx, prop: &str) -> Report {
 				0 | 1 => vec![],
 				2 => vec![KeyUsagePurpose::KeyCertSign, KeyUsagePurpose::CrlSign, KeyUsagePurpose::DigitalSignature],
 				// (a list is a list: a usage named twice, as it happens when one is pushed onto a copied list)
-				_ => vec![KeyUsagePurpose::KeyCertSign, KeyUsagePurpose::CrlSign, KeyUsagePurpose::KeyCertSign, KeyUsagePurpose::DigitalSignature, KeyUsagePurpose::CrlSign],
+				_ => if s.rng.chance(1, 2) { vec![KeyUsagePurpose::KeyCertSign, KeyUsagePurpose::KeyCertSign, KeyUsagePurpose::DigitalSignature] } else { vec![KeyUsagePurpose::KeyCertSign, KeyUsagePurpose::CrlSign, KeyUsagePurpose::KeyCertSign] },
 			};
 			// a CA that outlives 2049, to the nanosecond
 			if s.rng.chance(1, 3) {
